@@ -22,7 +22,7 @@ CID = "C12"
 AREA = "rcache"
 VO = ["props/C12.vo", "rcache/PyList.vo", "rcache/RCacheModel.vo", "rcache/RCacheSpec.vo",
       "rcache/RQueryModel.vo", "rcache/RQuerySpec.vo", "rcache/RQueryThm.vo", "rcache/RCacheThm.vo",
-      "rcache/RCacheQuery.vo", "base/Cal.vo", "rr/RRBase.vo", "rr/RRNorm.vo", "rcache/RReplace.vo", "rcache/RGenBase.vo", "gen/RQueryGen.vo", "gen/RCacheGen.vo", "rcache/RQueryGenThm.vo", "rcache/RReplaceThm.vo"]
+      "rcache/RCacheQuery.vo", "base/Cal.vo", "rr/RRBase.vo", "rr/RRNorm.vo", "rcache/RReplace.vo", "rcache/RRInitBase.vo", "gen/RRInitGen.vo", "rcache/RRInitGenThm.vo", "rcache/RGenBase.vo", "gen/RQueryGen.vo", "gen/RCacheGen.vo", "rcache/RQueryGenThm.vo", "rcache/RReplaceThm.vo"]
 
 MODES = ["uncached", "uncached_mid", "cached_fresh", "cached_mid", "cached_shared", "cached_complete"]
 
@@ -539,11 +539,21 @@ def translator_status(build_log):
     """harness/gen_rcache.py (run by common.regenerate on every check) regenerates coq/gen/RQueryGen.v and
     coq/gen/RCacheGen.v from /repo's source; when it aborts the files are poisoned and the C11_gen_* /
     C12_gen_* obligations (and with them the whole props file) stop compiling"""
-    m = re.search(r"TRANSLATE-ERROR: ([^\n]*)", build_log or "")
-    failed = "GENERATOR FAILED: gen_rcache.py" in (build_log or "") or (
-        m is not None and "gen_rcache" in (build_log or ""))
-    return {"script": "harness/gen_rcache.py", "outputs": ["coq/gen/RQueryGen.v", "coq/gen/RCacheGen.v"],
-            "status": "aborted" if failed else "ok", "message": m.group(1) if (m and failed) else None}
+    log = build_log or ""
+    out = {"scripts": {}, "status": "ok", "message": None}
+    for script, outs in (("gen_rcache.py", ["coq/gen/RQueryGen.v", "coq/gen/RCacheGen.v"]),
+                         ("gen_rr_init.py", ["coq/gen/RRInitGen.v"])):
+        failed = ("GENERATOR FAILED: %s" % script) in log
+        msg = None
+        if failed:
+            # the generator's own output precedes its GENERATOR FAILED line in the log
+            head = log[:log.index("GENERATOR FAILED: %s" % script)]
+            ms = re.findall(r"TRANSLATE-ERROR: ([^\n]*)", head)
+            msg = ms[-1] if ms else "generator exited non-zero"
+            out["status"] = "aborted"
+            out["message"] = ("%s: %s" % (script, msg)) if out["message"] is None else out["message"] + "; %s: %s" % (script, msg)
+        out["scripts"][script] = {"outputs": outs, "status": "aborted" if failed else "ok", "message": msg}
+    return out
 
 
 def main():
